@@ -1,17 +1,25 @@
 #!/bin/bash
-# tools/seed_regress.sh [ids...] : apply every seeded change to /repo in turn, run the quick check of the property it
-# breaks, expect a VIOLATION line, revert.  Leaves /repo clean and restores the committed evidence files.
+# tools/seed_regress.sh [ids...] : apply every seeded change in turn, run the quick check of the property it breaks,
+# expect a VIOLATION line, revert.  By default on /repo itself (left clean; committed evidence restored).  With
+# REGRESS_WT=<dir> a scratch worktree of /repo at <dir> is used instead (REPO_ROOT=<dir>), so /repo is never touched.
 set -u
-cd /verif
-git -C /repo diff --quiet || { echo "/repo is not clean"; exit 2; }
+cd "$(dirname "$0")/.."
+R=/repo
+if [ -n "${REGRESS_WT:-}" ]; then
+  R=$REGRESS_WT
+  [ -d "$R" ] || git -C /repo worktree add -q --detach "$R" HEAD
+  export REPO_ROOT=$R
+fi
+git -C $R diff --quiet || { echo "$R is not clean"; exit 2; }
 ids=${@:-$(ls seeded)}
 rc=0
 for id in $ids; do
   p=$(python3 -c "import json;print(json.load(open('seeded/$id/meta.json'))['property'])")
-  git -C /repo apply /verif/seeded/$id/patch.diff || { echo "$id: patch does not apply"; rc=1; continue; }
+  git -C $R apply "$(pwd)/seeded/$id/patch.diff" || { echo "$id: patch does not apply"; rc=1; continue; }
   out=$(./check $p --tier quick 2>&1 | grep -v KNOWN-FINDING | tail -1 | cut -c1-120)
-  git -C /repo checkout -- .
+  git -C $R checkout -- .
   case "$out" in VIOLATION*) echo "$id: detected  ($out)";; *) echo "$id: MISSED  ($out)"; rc=1;; esac
 done
 git checkout -q evidence
+if [ -n "${REGRESS_WT:-}" ]; then git -C /repo worktree remove --force "$R"; fi
 exit $rc
